@@ -631,6 +631,11 @@ where
             .iter()
             .copied()
             .find_map(|locale| {
+                // the locale must be the whole first segment: `StaticSegment::test` alone also accepts
+                // a segment that only starts with it ("/enabout"), or a shorter one ("/fr/.." for "fra").
+                if split_first_segment(path).0 != locale.as_str() {
+                    return None;
+                }
                 set_current_route_locale(locale);
                 StaticSegment(locale.as_str())
                     .test(path)
